@@ -83,6 +83,26 @@ func T4(n int) dbgen.Table {
 	return t
 }
 
+// T5: the value grid of C11 (integer and real boundary values, -0.0, infinities, text with NULs and
+// trailing blanks, blobs, NULL) as indexed values: ascending, descending and NOCASE indexes on a rowid
+// table. Every search key of C03/C13 derived from these entries meets int/real twins and 2^53 / 2^63
+// neighbours inside a real b-tree.
+const T5SQL = `CREATE TABLE t5 (k, tag)`
+
+func T5() dbgen.Table {
+	t := dbgen.Table{Name: "t5", SQL: T5SQL, NCols: 2, ColNames: []string{"k", "tag"}, RowidAlias: -1,
+		Defaults: make([]interface{}, 2), ColColl: make([]string, 2)}
+	for i, v := range c11Grid() {
+		t.Rows = append(t.Rows, dbgen.Row{Rowid: int64(i*3 + 1), Vals: []interface{}{v, fmt.Sprintf("g%03d", i)}})
+	}
+	t.Indexes = []dbgen.Index{
+		{Name: "t5_k", SQL: "CREATE INDEX t5_k ON t5 (k)", Cols: []dbgen.IdxCol{{Col: 0}}},
+		{Name: "t5_kd", SQL: "CREATE INDEX t5_kd ON t5 (k DESC, tag)", Cols: []dbgen.IdxCol{{Col: 0, Desc: true}, {Col: 1}}},
+		{Name: "t5_kn", SQL: "CREATE INDEX t5_kn ON t5 (k COLLATE NOCASE)", Cols: []dbgen.IdxCol{{Col: 0, Coll: "nocase"}}},
+	}
+	return t
+}
+
 // tableRowFor maps an index entry back to the logical table row
 func tableRowFor(u *indexUnderTest) func(entry []interface{}) (dbgen.Row, bool) {
 	t := u.table
@@ -175,7 +195,7 @@ func forIndexImages(r *ev.Run, fn func(si *ShapeImage)) {
 	}
 	for _, ps := range sizes {
 		for _, big := range []int{0, ps + 200} {
-			spec := &dbgen.Spec{PageSize: ps, Tables: []dbgen.Table{T1(rowidSet(22, 1), big), T2(30, big), T3(40), T4(26)}}
+			spec := &dbgen.Spec{PageSize: ps, Tables: []dbgen.Table{T1(rowidSet(22, 1), big), T2(30, big), T3(40), T4(26), T5()}}
 			img, err := dbgen.Build(spec)
 			if err != nil {
 				r.Harness("dbgen: %v", err)
